@@ -473,28 +473,57 @@ def set_uses(rel):
 
 
 def backward_order(rel="tensor.py"):
-    """The processing order of Tensor.backward comes from lists: every for-loop inside it iterates (through enumerate/reversed/...)
-    a local bound only to list displays, an attribute `_children` (tuples built by the op wrappers), or range()."""
-    fn = find_def(parse(rel), "Tensor", "backward")
-    lists, other = set(), set()
-    for n in ast.walk(fn):
-        if isinstance(n, ast.Assign):
-            for t in n.targets:
-                if isinstance(t, ast.Name):
-                    (lists if isinstance(n.value, (ast.List, ast.ListComp)) or (isinstance(n.value, ast.Call) and dotted(n.value.func) == "list" and not n.value.args)
-                     else other).add(t.id)
+    """The processing order of Tensor.backward comes from lists: every for-loop inside it -- and inside the helpers of the same file whose result it iterates --
+    iterates (through enumerate/reversed/...) a local bound only to list displays, an attribute `_children` (tuples built by the op wrappers), range(), or the result of a
+    helper (method of Tensor / function of the file) that returns such a list and obeys the same rule itself."""
+    tree = parse(rel)
+    fn = find_def(tree, "Tensor", "backward")
+    cls = find_def(tree, "Tensor")
+    methods = {m.name: m for m in cls.body if isinstance(m, ast.FunctionDef)}
+    funcs = {m.name: m for m in tree.body if isinstance(m, ast.FunctionDef)}
     bad, loops = [], []
-    for n in ast.walk(fn):
-        if isinstance(n, (ast.For, ast.comprehension)):
-            it = n.iter
-            while isinstance(it, ast.Call) and dotted(it.func) in ("enumerate", "reversed", "list", "tuple", "zip", "iter") and it.args:
-                it = it.args[0]
-            src = dotted(it) or (dotted(it.func) if isinstance(it, ast.Call) else ast.dump(it)[:40])
-            ok = (isinstance(it, ast.Name) and it.id in lists and it.id not in other) or (isinstance(it, ast.Attribute) and it.attr == "_children") \
-                or (isinstance(it, ast.Call) and dotted(it.func) == "range")
-            loops.append(src)
-            if not ok:
-                bad.append({"where": "%s:%s" % (rel, (n if isinstance(n, ast.For) else n.iter)._q), "clause": "order_not_from_list", "name": src})
+
+    def callee_of(call):
+        f = call.func
+        if isinstance(f, ast.Attribute) and isinstance(f.value, ast.Name) and f.value.id == "self":
+            return methods.get(f.attr)
+        if isinstance(f, ast.Name):
+            return funcs.get(f.id)
+        return None
+
+    def analyse(fd, depth=0):
+        """names of fd bound only to list-ordered values; for-loops of fd are judged on the way"""
+        lists, other = set(), set()
+        for n in ast.walk(fd):
+            if isinstance(n, ast.Assign):
+                for t in n.targets:
+                    if isinstance(t, ast.Name):
+                        v = n.value
+                        is_list = isinstance(v, (ast.List, ast.ListComp)) or (isinstance(v, ast.Call) and dotted(v.func) == "list" and not v.args)
+                        if not is_list and isinstance(v, ast.Call) and depth < 3:
+                            cd = callee_of(v)
+                            is_list = cd is not None and returns_list(cd, depth + 1)
+                        (lists if is_list else other).add(t.id)
+        for n in ast.walk(fd):
+            if isinstance(n, (ast.For, ast.comprehension)):
+                it = n.iter
+                while isinstance(it, ast.Call) and dotted(it.func) in ("enumerate", "reversed", "list", "tuple", "zip", "iter") and it.args:
+                    it = it.args[0]
+                src = dotted(it) or (dotted(it.func) if isinstance(it, ast.Call) else ast.dump(it)[:40])
+                ok = (isinstance(it, ast.Name) and it.id in lists and it.id not in other) or (isinstance(it, ast.Attribute) and it.attr == "_children") \
+                    or (isinstance(it, ast.Call) and dotted(it.func) == "range") \
+                    or (isinstance(it, ast.Call) and depth < 3 and callee_of(it) is not None and returns_list(callee_of(it), depth + 1))
+                loops.append(src)
+                if not ok:
+                    bad.append({"where": "%s:%s" % (rel, getattr(n if isinstance(n, ast.For) else n.iter, "_q", fd.name)), "clause": "order_not_from_list", "name": src})
+        return lists - other
+
+    def returns_list(fd, depth):
+        ok_names = analyse(fd, depth)
+        rets = [r for r in ast.walk(fd) if isinstance(r, ast.Return)]
+        return bool(rets) and all(isinstance(r.value, ast.Name) and r.value.id in ok_names for r in rets)
+    annotate(tree)
+    analyse(fn)
     return {"loops": loops, "bad": bad}
 
 
